@@ -135,6 +135,7 @@ type ModuleSvcSpec struct {
 	Provider sdk.AccAddress
 	Result   string
 	Output   string
+	CreatesContext bool // while answering, the host module tries to create a context of its own for service "a" (same message: the keeper refuses it) and does not look at the answer
 	Optional bool // a registration the keeper is expected to refuse (e.g. a second service under a module name already taken); only if it is accepted is the service reserved
 }
 
@@ -193,6 +194,12 @@ func (fxTokenKeeper) GetToken(ctx sdk.Context, d string) (servicetypes.TokenI, e
 		return servicetypes.MockToken{Symbol: "usd", MinUnit: "cent", Scale: 2}, nil
 	}
 	return nil, fmt.Errorf("token %s does not exist", d)
+}
+
+// msvcCreatesContext: a host module that, while answering a request to its module service, asks for a context of its own
+// (service "a", provider P1) under the transaction that is being handled, and ignores the refusal.
+func msvcCreatesContext(ctx sdk.Context, k servicekeeper.Keeper) {
+	_, _ = k.CreateRequestContext(ctx, "a", []sdk.AccAddress{P1}, C1, inputOK, coins(5), 1, false, false, 0, 0, servicetypes.RUNNING, 0, "")
 }
 
 // fxService is the exchange-rate module service of the host chain.
@@ -427,6 +434,9 @@ func NewRig(cfg RigConfig) *Rig {
 			ServiceName: spec.Service,
 			Provider:    spec.Provider,
 			ReuquestService: func(ctx sdk.Context, input string) (string, string) {
+				if spec.CreatesContext {
+					msvcCreatesContext(ctx, r.sk)
+				}
 				return spec.Result, spec.Output
 			},
 		}); err != nil {
@@ -585,7 +595,7 @@ func (w *World) DeliverMsg(msg sdk.Msg, txHash []byte, msgIndex int64) (res Step
 }
 
 // ModCall runs a keeper API call on behalf of "another module" with message-like atomicity.
-func (w *World) ModCall(txHash []byte, f func(ctx sdk.Context, k servicekeeper.Keeper) error) (res StepResult) {
+func (w *World) ModCall(txHash []byte, f func(ctx sdk.Context, k servicekeeper.Keeper) error, carry bool) (res StepResult) {
 	cctx, write := w.ctx.CacheContext()
 	cctx = cctx.WithValue(servicetypes.TxHash, txHash).WithValue(servicetypes.MsgIndex, int64(0))
 	if ss, ok := w.rig.pk.GetSubspace(servicetypes.ModuleName); ok {
@@ -601,7 +611,7 @@ func (w *World) ModCall(txHash []byte, f func(ctx sdk.Context, k servicekeeper.K
 		}()
 		res.ModErr = f(cctx, w.rig.sk)
 	}()
-	if res.ModErr == nil && res.Panic == "" {
+	if (res.ModErr == nil || carry) && res.Panic == "" {
 		write()
 		res.Events = convEvents(cctx.EventManager().Events())
 		res.Callbacks = append(res.Callbacks, w.rec.log[n0:]...)
